@@ -46,6 +46,8 @@ func cosim(e *sym.Exec, spec *Spec, rs *RunSpec, args []int64, model map[string]
 	type ob struct {
 		name string
 		val  float64
+		str  string
+		isS  bool
 	}
 	var want []ob
 	for _, o := range e.Observes {
@@ -54,6 +56,14 @@ func cosim(e *sym.Exec, spec *Spec, rs *RunSpec, args []int64, model map[string]
 			return // model outside the evaluable domain: skip silently
 		}
 		if !g.B {
+			continue
+		}
+		if o.Term == nil {
+			str, ok := e.EvalStr(o.Str, env, memo)
+			if !ok {
+				return
+			}
+			want = append(want, ob{name: o.Name, str: str, isS: true})
 			continue
 		}
 		v, err := e.S.Eval(o.Term, env, memo)
@@ -68,7 +78,7 @@ func cosim(e *sym.Exec, spec *Spec, rs *RunSpec, args []int64, model map[string]
 		} else {
 			f, _ = v.R.Float64()
 		}
-		want = append(want, ob{o.Name, f})
+		want = append(want, ob{name: o.Name, val: f})
 	}
 	_, assumeBad, out, err := nativeReplay(spec, rs.Harness, toInts(args), model, knownList(known))
 	if err != nil || assumeBad {
@@ -78,10 +88,14 @@ func cosim(e *sym.Exec, spec *Spec, rs *RunSpec, args []int64, model map[string]
 	for _, l := range strings.Split(out, "\n") {
 		l = strings.TrimSpace(l)
 		if strings.HasPrefix(l, "VERIF-OBS ") {
-			f := strings.Fields(l)
-			if len(f) == 3 {
+			f := strings.SplitN(l, " ", 3)
+			if len(f) == 3 && strings.HasPrefix(f[2], "\"") {
+				if u, err := strconv.Unquote(f[2]); err == nil {
+					got = append(got, ob{name: f[1], str: u, isS: true})
+				}
+			} else if len(f) == 3 {
 				v, _ := strconv.ParseFloat(f[2], 64)
-				got = append(got, ob{f[1], v})
+				got = append(got, ob{name: f[1], val: v})
 			}
 		}
 	}
@@ -93,6 +107,13 @@ func cosim(e *sym.Exec, spec *Spec, rs *RunSpec, args []int64, model map[string]
 		return
 	}
 	for i := range want {
+		if want[i].isS || got[i].isS {
+			if want[i].name != got[i].name || want[i].isS != got[i].isS || want[i].str != got[i].str {
+				res.cosimBad = append(res.cosimBad, fmt.Sprintf("%s symbolic=%q native=%s=%q", want[i].name, want[i].str, got[i].name, got[i].str))
+				return
+			}
+			continue
+		}
 		if want[i].name != got[i].name || math.Abs(want[i].val-got[i].val) > 1e-6*(1+math.Abs(want[i].val)) {
 			res.cosimBad = append(res.cosimBad, fmt.Sprintf("%s symbolic=%g native=%s=%g", want[i].name, want[i].val, got[i].name, got[i].val))
 			return
